@@ -12,6 +12,10 @@
                               up to (not including) offset capacity
      FreshRead    tt4.py:284-315               _read_ndef_data of a fresh reader (READ BINARY plan)
      PowerCut     the tag leaves the field between two commands
+     Drop / Recover  transient outage: a frame of the pending exchange does not reach the tag; the ISO-DEP
+                  initiator (tt4.py IsoDepInitiator.exchange) makes Retries (1 + n_retry = 6) attempts per
+                  block, then the operation ends with Type4TagCommandError ("failed"); the tag may answer
+                  again afterwards but the writer sends nothing more (NLEN = 0 or the old file stay)
 
    Code as it is vs. code with the proposed fixes (proposed_fixes/C01-t4-1.diff, C01-t4-2.diff):
      (a) tt4.py:332/340  the return value of _update_binary (bytes really sent = min(MLc, n)) is
@@ -39,7 +43,8 @@ CONSTANTS B,           \* byte base
           LcMax, LeMax,\* short APDU limits (255, 256)
           Variants,    \* subset of {"asis", "fixed"}
           Mfss, Extras, NlenSizes, MLcs, MLes, WFlags, OldLens, MsgKinds,   \* MC: layouts
-          WithCut, WithFormat
+          WithCut, WithFormat,
+          WithOutage, Retries    \* explore Drop ; attempts per block before the initiator gives up (6)
 
 VARIABLES tag,    \* [cc, ndef, oth]  cc = [ns, mfs, mle, mlc, wf] ; ndef/oth = file contents
           tag0,
@@ -48,9 +53,10 @@ VARIABLES tag,    \* [cc, ndef, oth]  cc = [ns, mfs, mle, mlc, wf] ; ndef/oth = 
           pay,    \* bytes to be written from offset 0 (tt4.py:320-325) / wipe parameters
           off,    \* next offset
           ncmd,   \* UPDATE BINARY commands sent so far (executed or refused)
+          nd,     \* consecutive frames of the pending exchange that were lost
           last,   \* the last command sent
           seen    \* view of a fresh reader (FreshRead), [k |-> "unseen"] before
-vars == <<tag, tag0, pc, op, msg, pay, off, ncmd, last, seen>>
+vars == <<tag, tag0, pc, op, msg, pay, off, ncmd, nd, last, seen>>
 
 Min2(a, b) == IF a < b THEN a ELSE b
 Zeros(n) == [k \in 1..n |-> 0]
@@ -113,7 +119,7 @@ Begin(m) ==
     /\ pay' = Payload(m)
     /\ pc' = IF ~Writeable(tag) THEN "refused"
              ELSE IF Len(m) > RepCap(tag) THEN "rejected" ELSE "u_data"
-    /\ UNCHANGED <<tag, tag0, ncmd, last, seen>>
+    /\ UNCHANGED <<tag, tag0, ncmd, nd, last, seen>>
 
 \* size of the next chunk of `total` bytes at offset o: as coded min(MLc, rest) (raises if > LcMax) /
 \* with fix (b) min(MLc, LcMax, rest)
@@ -135,7 +141,7 @@ Raise ==
        \/ pc = "z_wipe" /\ ChunkRaises(RepCap(tag), off)
        \/ pc = "z_nlen" /\ Partial /\ NS(tag) < RepCap(tag) /\ ChunkRaises(RepCap(tag), NS(tag))
     /\ pc' = "error_value"
-    /\ UNCHANGED <<tag, tag0, op, msg, pay, off, ncmd, last, seen>>
+    /\ UNCHANGED <<tag, tag0, op, msg, pay, off, ncmd, nd, last, seen>>
 
 \* the commands the modelled procedure may issue next, each with the follow-up pc and off
 Steps ==
@@ -162,7 +168,7 @@ Steps ==
 
 \* one UPDATE BINARY command `s.c` reaches the tag
 Step(s) ==
-    /\ ncmd' = ncmd + 1 /\ last' = s.c
+    /\ ncmd' = ncmd + 1 /\ last' = s.c /\ nd' = 0
     /\ IF TagOk(tag, s.c)
        THEN tag' = TagApply(tag, s.c) /\ pc' = s.pc /\ off' = s.off
        ELSE tag' = tag /\ pc' = "error" /\ off' = off
@@ -174,25 +180,35 @@ Finish ==
        \/ pc = "u_nlen" /\ Partial /\ "asis" \in Variants /\ pc' = "done"
        \/ pc = "z_end" /\ pc' = "fdone"
        \/ pc = "z_nlen" /\ Partial /\ "asis" \in Variants /\ NS(tag) >= RepCap(tag) /\ pc' = "fdone"
+    /\ UNCHANGED <<tag, tag0, op, msg, pay, off, ncmd, nd, last, seen>>
+
+Drop ==
+    /\ op = "write" /\ pc \in {"u_data", "u_nlen"}
+    /\ nd' = nd + 1
+    /\ pc' = IF nd + 1 >= Retries THEN "failed" ELSE pc
     /\ UNCHANGED <<tag, tag0, op, msg, pay, off, ncmd, last, seen>>
+Recover ==               \* a frame got through again before the budget was used up
+    /\ op = "write" /\ pc \in {"u_data", "u_nlen"} /\ nd > 0
+    /\ nd' = 0
+    /\ UNCHANGED <<tag, tag0, pc, op, msg, pay, off, ncmd, last, seen>>
 
 PowerCut ==
     /\ op = "write" /\ pc \in {"u_data", "u_nlen", "u_end"}
     /\ pc' = "cut"
-    /\ UNCHANGED <<tag, tag0, op, msg, pay, off, ncmd, last, seen>>
+    /\ UNCHANGED <<tag, tag0, op, msg, pay, off, ncmd, nd, last, seen>>
 
 \* Type4Tag._format(version, wipe): wipe = -1 stands for None (nothing is sent, returns True)
 FBegin(wipe) ==
     /\ pc = "idle"
     /\ op' = "format" /\ msg' = <<>> /\ off' = 0 /\ pay' = [wipe |-> wipe]
     /\ pc' = IF ~HasNdef(tag) \/ ~Writeable(tag) THEN "ffalse" ELSE IF wipe < 0 THEN "z_end" ELSE "z_nlen"
-    /\ UNCHANGED <<tag, tag0, ncmd, last, seen>>
+    /\ UNCHANGED <<tag, tag0, ncmd, nd, last, seen>>
 
-Terminal == {"done", "cut", "rejected", "refused", "error", "error_value", "fdone", "ffalse"}
+Terminal == {"done", "cut", "failed", "rejected", "refused", "error", "error_value", "fdone", "ffalse"}
 FreshRead ==
     /\ pc \in Terminal /\ seen = Unseen
     /\ seen' \in {CodeView(tag, v) : v \in Variants}
-    /\ UNCHANGED <<tag, tag0, pc, op, msg, pay, off, ncmd, last>>
+    /\ UNCHANGED <<tag, tag0, pc, op, msg, pay, off, ncmd, nd, last>>
 
 \* ------------------------------------------------------------------ exhaustive model (scaled constants)
 OldFile(ns, flen, n) == Nlen(ns, n) \o [x \in 1..(flen - ns) |-> 1 + (x % 2)]
@@ -207,7 +223,7 @@ Init ==
                       ndef |-> OldFile(ns, mfs + ex, n), oth |-> <<3, 3>>]
     /\ tag0 = tag
     /\ pc = "idle" /\ op = "none" /\ msg = <<>> /\ pay = <<>> /\ off = 0 /\ ncmd = 0 /\ last = NoCmd
-    /\ seen = Unseen
+    /\ seen = Unseen /\ nd = 0
 
 Next ==
     \/ \E kind \in MsgKinds, n \in 0..(RepCap(tag) + 1) : Begin(NewMsg(kind, n))
@@ -215,6 +231,7 @@ Next ==
     \/ Raise
     \/ Finish
     \/ WithCut /\ PowerCut
+    \/ WithOutage /\ (Drop \/ Recover)
     \/ WithFormat /\ \E wipe \in {-1, 3} : FBegin(wipe)
     \/ FreshRead
 
@@ -238,13 +255,14 @@ Confined ==
     /\ last # NoCmd => last.fid = "ndef" /\ last.off + Len(last.data) <= tag0.cc.mfs
     /\ pc \in {"rejected", "refused", "ffalse"} => tag = tag0
 
-TypeOK == pc \in {"idle", "refused", "rejected", "u_data", "u_nlen", "u_end", "done", "cut", "error",
+TypeOK == pc \in {"idle", "refused", "rejected", "u_data", "u_nlen", "u_end", "done", "cut", "failed", "error",
                   "error_value", "ffalse", "z_nlen", "z_wipe", "z_end", "fdone"}
 
 \* ------------------------------------------------------------------ reachability witnesses (must be violated)
 W_CutOld == ~(pc = "cut" /\ ncmd = 0 /\ RefRead(tag) = RefRead(tag0) /\ Len(RefRead(tag).v) > 0)
 W_CutEmpty == ~(pc = "cut" /\ ncmd > 0 /\ RefRead(tag) = Empty /\ RefRead(tag0) # Empty /\ Len(msg) > 0)
 W_CutNew == ~(pc = "cut" /\ Len(msg) > 0 /\ RefRead(tag) = Ndef(msg) /\ RefRead(tag0) # Ndef(msg))
+W_FailedEmpty == ~(pc = "failed" /\ ncmd >= 1 /\ RefRead(tag) = Empty /\ RefRead(tag0) # Empty)
 W_Single == ~(pc = "done" /\ ncmd = 1 /\ Len(msg) > 0)
 W_Multi == ~(pc = "done" /\ ncmd >= 4)
 W_Rejected == ~(pc = "rejected")
